@@ -311,6 +311,61 @@ theorem good_closeDone {cfg : Cfg} {now : Nat} {e e' : Sess} {err : Bool} (h : G
     cases he
     constructor <;> simp_all
 
+theorem good_upl {cfg : Cfg} {now : Nat} {e : Sess} (n : Nat) (h : Good cfg now e) : Good cfg now { e with upl := n } := by
+  obtain ⟨g1, g2, g3, g4, g5, g6, g7, g8, g9⟩ := h
+  exact ⟨g1, g2, g3, g4, g5, g6, g7, g8, g9⟩
+
+theorem good_head {cfg : Cfg} {now : Nat} {e : Sess} (h : Good cfg now e) (hm : e.inMap = true) :
+    Good cfg now (headF e) := good_upl _ (good_startTimer h hm)
+
+theorem good_body {cfg : Cfg} {now : Nat} {e e' : Sess} {ok : Bool} {k : Kind} (h : Good cfg now e)
+    (he : bodyF ok k e = some e') : Good cfg now e' := by
+  unfold bodyF at he
+  split at he
+  · cases he
+  · rename_i hc
+    cases he
+    have hp : e.pending = none := by
+      cases hp : e.pending with
+      | none => rfl
+      | some x => simp [hp] at hc
+    by_cases hcl : e.closing = true
+    · rw [deliver_closing ok k (e := { e with upl := e.upl - 1 }) hcl]; exact good_upl _ h
+    · have hcl : e.closing = false := by simpa using hcl
+      have hr : e.removed = false := by
+        cases hr : e.removed with
+        | false => rfl
+        | true => have := (h.removed hr).2.2.2; rw [hcl] at this; cases this
+      have hf := deliver_fields ok k { e with upl := e.upl - 1 }
+      exact good_frame (good_upl (e.upl - 1) h) (by rw [hf.1]; exact hr) (by rw [hf.2.2.2.2.2.2.2.2.2.2.1]; exact hp) hp
+        hf.2.1 hf.2.2.1 hf.2.2.2.1 hf.2.2.2.2.1 hf.2.2.2.2.2.1 hf.2.2.2.2.2.2.2.2.2.1 hr hf.2.2.2.2.2.2.2.2.2.2.2
+
+theorem headF_fields (e : Sess) :
+    (headF e).removed = e.removed ∧ (headF e).id = e.id ∧ (headF e).owner = e.owner ∧
+    (headF e).closing = e.closing ∧ (headF e).posts = e.posts + 1 ∧
+    (headF e).inMap = e.inMap ∧ (headF e).pending = e.pending ∧
+    (headF e).busy = e.busy ∧ (headF e).initBusy = e.initBusy ∧ (headF e).upl = e.upl + 1 := by
+  have hs := startTimer_fields e
+  exact ⟨hs.1, hs.2.1, hs.2.2.1, hs.2.2.2.1, hs.2.2.2.2.1, hs.2.2.2.2.2.1, hs.2.2.2.2.2.2.1, hs.2.2.2.2.2.2.2.1,
+    hs.2.2.2.2.2.2.2.2, rfl⟩
+
+theorem bodyF_fields {ok : Bool} {k : Kind} {e e' : Sess} (h : bodyF ok k e = some e') :
+    e'.removed = e.removed ∧ e'.id = e.id ∧ e'.owner = e.owner ∧ e'.closing = e.closing ∧ e'.posts = e.posts ∧
+    e'.inMap = e.inMap ∧ e'.timer = e.timer ∧ e'.refs = e.refs ∧ e.upl ≠ 0 ∧
+    (e.closing = true → e'.busy = e.busy ∧ e'.initBusy = e.initBusy) := by
+  unfold bodyF at h
+  split at h
+  · cases h
+  · rename_i hc
+    cases h
+    have hf := deliver_fields ok k { e with upl := e.upl - 1 }
+    refine ⟨hf.1, hf.2.2.2.2.2.2.1, hf.2.2.2.2.2.2.2.1, hf.2.2.2.2.2.2.2.2.1, hf.2.2.2.1, hf.2.2.2.2.2.2.2.2.2.1,
+      hf.2.1, hf.2.2.1, ?_, ?_⟩
+    · intro h0; simp [h0] at hc
+    · intro hcl
+      rw [deliver_closing ok k (e := { e with upl := e.upl - 1 }) hcl]
+      exact ⟨rfl, rfl⟩
+
 /-! ### one label, seen from the table -/
 
 /-- How a single entry can move in one label. -/
@@ -322,6 +377,8 @@ inductive Move (s : State) : Sess → Sess → Prop where
   | fire (e e' : Sess) : timerFireF s.now e = some e' → Move s e e'
   | close (e e' : Sess) : closeF e = some e' → Move s e e'
   | cdone (e e' : Sess) : closeDoneF s.closeFails e = some e' → Move s e e'
+  | head (e : Sess) (u : User) : lookup s.tbl e.id u = .ok e → Move s e (headF e)
+  | body (e e' : Sess) (ok : Bool) (k : Kind) : bodyF ok k e = some e' → Move s e e'
 
 theorem lookup_ok {t : List Sess} {i : Nat} {u : User} {e : Sess} (h : lookup t i u = .ok e) :
     findSess i t = some e ∧ e.inMap = true ∧ (e.owner = none ∨ e.owner = u) := by
@@ -408,6 +465,36 @@ theorem step_cases {s s' : State} {l : Label} {r : Resp} (h : step s l = some (s
               have hid := (findSess_some this.1).2
               exact Move.start e _ k u (by rw [hid]; exact hl))
             exact ⟨rfl, Nat.le_refl _, Or.inr (Or.inr ⟨pre, e1, post, e', h1, h2, h3, h4, rfl, rfl, hst⟩)⟩
+    case postHead sid u =>
+      cases sid <;> simp only [] at h
+      · cases h
+      · rename_i i
+        split at h
+        · cases h; simp
+        · rename_i e hl
+          split at h
+          · cases h
+          · rename_i t hm
+            cases h
+            obtain ⟨pre, e1, post, e', h1, h2, h3, h4⟩ := mv hm (by
+              intro e1 e' hf he'
+              have := lookup_ok hl
+              rw [this.1] at hf; cases hf
+              cases he'
+              have hid := (findSess_some this.1).2
+              exact Move.head e u (by rw [hid]; exact hl))
+            exact ⟨rfl, Nat.le_refl _, Or.inr (Or.inr ⟨pre, e1, post, e', h1, h2, h3, h4, rfl, rfl, hst⟩)⟩
+    case postBody i k =>
+      split at h
+      · cases h
+      split at h
+      · cases h
+      · split at h
+        · cases h
+        · rename_i t hm
+          cases h
+          obtain ⟨pre, e1, post, e', h1, h2, h3, h4⟩ := mv hm (fun e e' _ he' => Move.body e e' _ k he')
+          exact ⟨rfl, Nat.le_refl _, Or.inr (Or.inr ⟨pre, e1, post, e', h1, h2, h3, h4, rfl, rfl, hst⟩)⟩
     case handlerDone i b =>
       split at h
       · cases h
@@ -541,6 +628,12 @@ theorem move_fields {s : State} {e e' : Sess} (h : Move s e e') :
   | .cdone _ _ he =>
     unfold closeDoneF at he
     split at he <;> cases he; simp_all
+  | .head _ u hl =>
+    have hf := headF_fields e
+    exact ⟨hf.2.1, hf.2.2.1, by rw [hf.1]; exact id, by rw [hf.2.2.2.1]; exact id⟩
+  | .body _ _ ok k he =>
+    have hf := bodyF_fields he
+    exact ⟨hf.2.1, hf.2.2.1, by rw [hf.1]; exact id, by rw [hf.2.2.2.1]; exact id⟩
 
 /-- A session whose close has begun and that has no handler in flight. -/
 def Quiet (e : Sess) : Prop := e.closing = true ∧ e.busy = 0 ∧ e.initBusy = 0
@@ -600,6 +693,13 @@ theorem move_quiet {s : State} {e e' : Sess} (h : Move s e e') (hq : Quiet e) : 
     unfold closeDoneF at he
     split at he <;> cases he
     exact ⟨hc, hb, hib⟩
+  | .head _ u hl =>
+    have hf := headF_fields e
+    exact ⟨by rw [hf.2.2.2.1]; exact hc, by rw [hf.2.2.2.2.2.2.2.1]; exact hb, by rw [hf.2.2.2.2.2.2.2.2.1]; exact hib⟩
+  | .body _ _ ok k he =>
+    have hf := bodyF_fields he
+    have := hf.2.2.2.2.2.2.2.2.2 hc
+    exact ⟨by rw [hf.2.2.2.1]; exact hc, by rw [this.1]; exact hb, by rw [this.2]; exact hib⟩
 
 theorem move_good {s : State} {e e' : Sess} (hfix : s.cfg.publishChecks = true)
     (hg : Good s.cfg s.now e) (h : Move s e e') : Good s.cfg s.now e' := by
@@ -612,6 +712,8 @@ theorem move_good {s : State} {e e' : Sess} (hfix : s.cfg.publishChecks = true)
   | .close _ _ he => exact good_close hg he
   | .cdone _ _ he =>
     exact good_closeDone hg (by intro hx; simp [State.closeFails] at hx; exact hx.1) he
+  | .head _ u hl => exact good_head hg (lookup_ok hl).2.1
+  | .body _ _ ok k he => exact good_body hg he
 
 /-! ### the global invariant -/
 
